@@ -270,7 +270,8 @@ START_URLS = ["http://h/p?z=1&y=2&x=3", "non-spec:/p?b=2&a=1#f", "http://h/?a=%4
               "file:///", "file://localhost/x", "non-spec://u:p@h:99/p?q#f", "non-spec://h", "non-spec:/p", "non-spec:///p", "non-spec://",
               "non-spec:/.//p", "non-spec:opaque  ", "mailto:a@b?s  #f", "javascript:alert(1)  ", "data:x  ?q", "blob:http://h/id", "a:b #c", "http://[::1]/", "http://1.2.3.4/",
               "http://h/a/b/c/..", "https://h/?#", "non-spec:/..//p", "wss://h:443/",
-              "data:space   ?query#frag", "a:   #f", "a:  ?q", "blob:https://example.org:8443/uuid", "ws://h/?a'z", "file:///a/../C|/x"]
+              "data:space   ?query#frag", "a:   #f", "a:  ?q", "blob:https://example.org:8443/uuid", "ws://h/?a'z", "file:///a/../C|/x",
+              "http://example.org:0/p?q#f", "ws://h:00000/", "sc://user:pw@example.org:8080/p?q#f", "sc://example.org:81/p"]
 
 def opaque_space_cases(ctx, r, n, reparse=False):
     """opaque paths that end in spaces (or are nothing but spaces): the spaces are stripped exactly when BOTH the query
@@ -350,6 +351,22 @@ def stream_histories(ctx, r):
         lines += ["sp_sort 0", "get 0", "get 1"]
         cases.append(Case(lines, "focused-history"))
     cases += opaque_space_cases(ctx, r, scale(ctx, 200, 3000))
+    # the params object of an object that is NOT valid (never parsed, cleared, failed parse, moved from) is edited through
+    # the API; when the object becomes valid again its list must be the parse of the new query and nothing else
+    for rep in range(scale(ctx, 300, 4000)):
+        lines = []
+        k = r.random()
+        if k < 0.25: pass                                                   # never parsed
+        elif k < 0.5: lines += ["parse 0 %s -" % tok("http://h/?old=1"), "sp 0", "clear 0"]
+        elif k < 0.75: lines += ["parse 0 %s -" % tok("http://h/?old=1"), "parse 0 %s -" % tok(r.choice(["http://h:8x/", "//", "http://a b/", "file://h:1/"]))]
+        else: lines += ["parse 0 %s -" % tok("http://h/?old=1"), "sp 0", "parse 1 %s -" % tok("http://t/"), "safe_assign 1 0"]
+        lines.append("sp 0")
+        for _ in range(r.randint(1, 3)):
+            lines.append(r.choice(["sp_append 0 %s %s" % (tok("x"), tok("y")), "sp_set 0 %s %s" % (tok("a"), tok("b")), "sp_parse 0 %s" % tok("p=1&q=2"), "sp_sort 0"]))
+        nxt = r.choice(["http://h/p", "http://h/p#frag", "foo:opaque", "http://h/p?", "http://h/p?n=1", "non-spec:/p"])
+        lines.append(r.choice(["parse 0 %s -", "set 0 href %s"]) % tok(nxt) if r.random() < 0.8 else "copy 0 2")
+        lines += ["get 0", "sp_append 0 %s %s" % (tok("z"), tok("1")), "get 0"]
+        cases.append(Case(lines, "params-of-invalid-owner"))
     # an object is REUSED after a parse that failed late (scheme, credentials, host, port already stored): the residue of
     # the failed parse must not show in the next URL, in its use as a base, or in later setters
     FAIL_LATE = ["http://h:8x/", "https://h:65536/", "http://u:p@h:99999/p?q#f", "ws://h:-1", "file://a b/x", "file://h:80/x", "file://[::1/x", "non-spec://h:x/", "http://a<b/",
